@@ -4,7 +4,7 @@
    the source in source order).  The model is run against the real containers on every check (T-cor), and its
    classification of entry points is checked against Gen_VersionTable.v, regenerated from the clang AST. *)
 From Coq Require Import ZArith List Bool String.
-From C15 Require Import Gen_VersionTable Version VersionProofs TableCheck.
+From C15 Require Import Gen_VersionTable Version VersionProofs TableCheck PreFix.
 Import ListNotations.
 
 (* A handle (iterator / position) whose version snapshot differs from the current version of the container it was
@@ -132,3 +132,18 @@ Theorem C15_witness_history :
      Rej; Acc (Some 99%Z); Rej; Rej; Acc None].
 Proof. exact VersionProofs.witness_history. Qed.
 Print Assumptions C15_witness_history.
+
+(* The pre-fix shape of TreeSetConstIterator::operator++ (leaf nodes did not check index < count; /repo commit ed8da09):
+   "an iterator that ++ accepted and Remove/ResetKey then accepts lies inside its node" is refuted for it
+   (++end on a 2-item leaf root gives index 3, which passes `iter != GetEnd()`), and holds for the fixed code. *)
+Theorem C15_prefix_tree_increment_refuted :
+  ~ (forall leaf count idx i', idx <= count -> inc_prefix leaf count idx = Some i' ->
+       remove_checks_pass count i' = true -> i' < count).
+Proof. exact PreFix.prefix_tree_increment_refuted. Qed.
+Print Assumptions C15_prefix_tree_increment_refuted.
+
+Theorem C15_fixed_tree_increment_safe :
+  forall leaf count idx i', idx <= count -> inc_fixed leaf count idx = Some i' ->
+    remove_checks_pass count i' = true -> i' < count.
+Proof. exact PreFix.fixed_tree_increment_safe. Qed.
+Print Assumptions C15_fixed_tree_increment_safe.
